@@ -325,7 +325,7 @@ pub fn encode(n: &Node, sch: &SchemaJ, out: &mut String) -> Result<(), String> {
                 encode(x, sch, out)?;
             }
         }
-        Node::Struct { name, kind, fields } => {
+        Node::Struct { name, kind, fields, .. } => {
             let id = *sch.by_serde_name.get(*name).ok_or_else(|| format!("reflected struct {name} is unknown to the schema"))?;
             let t = &sch.types[id];
             if t.is_enum {
@@ -337,7 +337,7 @@ pub fn encode(n: &Node, sch: &SchemaJ, out: &mut String) -> Result<(), String> {
                 encode(x, sch, out)?;
             }
         }
-        Node::Variant { name, idx, variant, kind, fields } => {
+        Node::Variant { name, idx, variant, kind, fields, .. } => {
             let id = *sch.by_serde_name.get(*name).ok_or_else(|| format!("reflected enum {name} is unknown to the schema"))?;
             let t = &sch.types[id];
             if !t.is_enum {
